@@ -631,3 +631,13 @@ Proof.
   intros vol evs H. unfold footprint_ok_vol in H. destruct (footprint_ok_sound _ H) as [memo Hm].
   exists memo. intros e He Hv. apply Hm. apply filter_In. split; [exact He|]. rewrite Hv. reflexivity.
 Qed.
+
+(* a check-then-act store whose value is NOT a function of the key (it also depends on an input x the key does not name):
+   the thread that comes second uses the first one's value *)
+Lemma key_not_determining_refuted :
+  let user (x : N) : prog N N := cta_noreadback 7%N [] (fun _ => (100 + x)%N) (fun v => Ret v) in
+  result (exec [1; 1; 0] (init (two (user 1%N) (user 2%N)) empty)) 0 = Some 102%N /\
+  fst (solo (user 1%N) empty) = 101%N /\
+  (* per-write classification sees nothing: both stores are publications of an absent key or never happen *)
+  kinds N.eqb [1; 1; 0] (init (two (user 1%N) (user 2%N)) empty) = [KRead; KMemoWrite; KRead].
+Proof. vm_compute. repeat split; reflexivity. Qed.
